@@ -280,9 +280,33 @@ def rule_r9(ctx):
     from . import c01, c09
     c09.rule_r9(ctx, rid="C11.R9")
     c01.rule_r8(ctx, rid="C11.R9")  # ... and a Transfer-Encoding outside HTTP/1.1 is a close decision for every such version
+    c01.rule_r6(ctx, rid="C11.R9")  # ... and so is a Content-Length next to Transfer-Encoding, whatever its value
 
 
-RULES = [rule_r1, rule_r2, rule_r3, rule_r4, rule_r5, rule_r6, rule_r7, rule_r8, rule_r9]
+def rule_r10(ctx, rid="C11.R10"):
+    ctx.r.rule(rid, "a worker paused on the output condition is woken by the I/O thread either because the flush succeeded or by the teardown (connected already False): no notify is reachable through the exceptional exit of a flush - woken after a failed flush, before the teardown ran, the worker sees a live connection and goes on to the next pipelined request although the close decision has been taken")
+    from .c12 import _cond_calls
+    n_sites = 0
+    for meth in ("notify", "notify_all"):
+        for (f, g, n, c) in _cond_calls(ctx, meth):
+            if f.name == "handle_close":
+                continue
+            n_sites += 1
+            flushes = [m for m in g.nodes if m.ast is not None and m.kind in ("stmt", "branch", "test") and m is not n
+                       and any(isinstance(x, ast.Call) and isinstance(x.func, ast.Attribute) and x.func.attr in ("_flush_some", "send") for x in ast.walk(m.ast))]
+            bad = None
+            for m in flushes:
+                for (sx, lab) in m.succ:
+                    if lab == "exc" and (sx is n or n.id in g.reach(sx)):
+                        bad = m
+            if bad is None:
+                ctx.r.ok(rid, "%s() in %s is not reached after a failed flush" % (meth, f.name), f.loc(n.ast))
+            else:
+                ctx.r.violation(rid, key_of(f, None, "notify-after-failed-flush"), "%s() on the output condition in %s also runs when `%s` raised: the paused worker is released before handle_close() has cleared `connected` and executes the next queued request of a connection that is being closed" % (meth, f.qual, norm(bad.ast)[:50]), f.loc(n.ast))
+    ctx.r.floor(rid, n_sites, 1, "notify sites outside the teardown")
+
+
+RULES = [rule_r1, rule_r2, rule_r3, rule_r4, rule_r5, rule_r6, rule_r7, rule_r8, rule_r9, rule_r10]
 
 from ..selftest import M, T, V  # noqa: E402
 
